@@ -153,3 +153,10 @@ pub fn vx_iter_from<T>(v: &Vec<T>, a: usize) -> (r: VxIter<&T>)
 pub open spec fn vx_iter_from_spec<T>(v: Seq<T>, a: int) -> Seq<T> {
     v.subrange(a, v.len() as int)
 }
+
+/// R4': `v[a..].fill(x)` — overwrite the tail of a Vec starting at index a (panics if a > len)
+#[verifier::external_body]
+pub fn vx_fill_from<T: Copy>(v: &mut Vec<T>, a: usize, value: T)
+    requires a <= old(v)@.len(),
+    ensures final(v)@ == Seq::new(old(v)@.len(), |i: int| if i >= a { value } else { old(v)@[i] }),
+{ unimplemented!() }
